@@ -3,7 +3,7 @@ import random
 
 from .. import refcal as R
 from ..core import Sub
-from .common import Viol
+from .common import Viol, TAIL0
 from . import addsweep as A
 
 FLAVOURS = ("san",)
@@ -12,7 +12,9 @@ RULE = ("dadd +-Nd / +-Nw over stdin batches: days = boundary-set sample + rando
         "days and {1..60, 520..523, 5217, 5218, 20871} weeks of both signs plus random counts up to "
         "the range width, two durations in one invocation (composition), for representations ymd, "
         "ymcw, ywd, yd, ldn, mdn, jdn, bizda (weekday start and weekday target); expected text = "
-        "reference rendering of day n+k. Non-trivial: the addition crosses a month/year boundary "
+        "reference rendering of day n+k, in the calendar of the input and (a third of the counts per "
+        "shard) printed in another calendar with -f ymd / -f ywd, which exposes a value whose own text "
+        "is right but which denotes another day. Non-trivial: the addition crosses a month/year boundary "
         "or |k| > 366 days")
 ASSUMPTIONS = ["reference calendar vf/refcal.py", "bizda +days asserted only when start and target are Mon-Fri"]
 
@@ -26,14 +28,17 @@ def plan(ctx):
     return [("adds", {"shard": i, "nshards": ns}) for i in range(ns)]
 
 
-def _exp(rep):
-    mk = A.REPS[rep][1]
+def _exp(rep, outrep=None):
+    mk = A.REPS[outrep or rep][1]
     appl = A.REPS[rep][2]
 
     def f(n, info):
         tot = sum(k * (7 if u == "w" else 1) for k, u in info)
         t = n + tot
         if not (R.NMIN <= t <= R.NMAX):
+            return None
+        if outrep and rep in ("ldn", "mdn", "jdn") and t >= TAIL0:
+            # day number -> civil date in the last 606 days is C01's recorded finding
             return None
         # intermediate results must stay in range as well
         acc = n
@@ -96,6 +101,12 @@ def adds(ctx, shard, nshards):
         # a bare count is also a valid day number, so only with textual calendars
         dd = durs + ([bare] if rep in ("ymd", "ymcw", "ywd", "yd", "bizda") else [])
         A.sweep(ctx, sub, V, rep, dd, ds, _exp(rep), _tag(rep), _nt)
+        # the same sums printed in another calendar: the text of the own calendar can be right
+        # while the value denotes another day (e.g. a wrong ISO-week "hang")
+        outrep = "ymd" if rep != "ymd" else "ywd"
+        sel = dd[shard % 3::3]
+        A.sweep(ctx, sub, V, rep, sel, ds, _exp(rep, outrep), lambda info, t=_tag(rep), o=outrep: t(info) + ">" + o, _nt,
+                extra_args=("-f", outrep))
     if shard == 0:
         sub.sample({"rep": "ywd", "in": A.in_text("ywd", days[0]), "dur": "+36525d",
                     "expected": _exp("ywd")(days[0], [(36525, "d")])})
@@ -110,5 +121,5 @@ def replay(ctx, subname, case):
         k = int(d.rstrip("dw"))
         info.append((k, u))
     n = case.get("n")
-    x = _exp(case["rep"])(n, info) if n is not None else None
+    x = _exp(case["rep"], case.get("outrep"))(n, info) if n is not None else None
     return A.replay_one(ctx, case, x)
